@@ -450,6 +450,7 @@ class EngineWorld:
         self.stable_checks: list = []
         self.states: set = set()
         self.wait_calls: list[dict] = []
+        self.parent_of: dict[int, Any] = {}
         self.ended = False
         boot.reset_ids()
         self.loop.executor_delay = lambda: float(self.tape.choice(self.cfg["grid"], "exec"))
@@ -481,6 +482,7 @@ class EngineWorld:
     def mk(self, tname: str, parent: Any, src: str, **kw: Any) -> Event:
         cls = EV.TYPES[tname]
         u = self.uid()
+        self.parent_of[u] = _hashable(parent)
         p = parent if isinstance(parent, int) else -1
         return cls(uid=u, parent=p, src=src, **kw)
 
